@@ -21,6 +21,7 @@ func runC04(c *Ctx) {
 	c.Clause("C04.7 the final size of a RESET_STREAM(_AT) the send stream queues is its write offset (what flow control admitted)")
 	c.Clause("C04.6 lastBlockedAt written only on the newly-blocked path; *_BLOCKED frames are only built under IsNewlyBlocked()==true")
 	c.Clause("C04.7 MAX_DATA / MAX_STREAM_DATA values come from GetWindowUpdate at frame creation")
+	c.Clause("C04.9 every Config is passed through validateConfig (receive windows clipped to the varint maximum) before populateConfig")
 	c.Clause("C04.8 no frame of a packet is handled after an earlier frame of it failed (the recorded FLOW_CONTROL_ERROR cannot be overwritten by a later frame's result)")
 	c.NotCovered("arithmetic of window auto-tuning")
 	c.NotCovered("credit conservation as a sum over histories")
@@ -37,6 +38,7 @@ func runC04(c *Ctx) {
 	c.rule("C04.6", func() { c04Blocked(c) })
 	c.rule("C04.7", func() { c04WindowUpdates(c) })
 	c.rule("C04.8", func() { skipHandlingGuardsEveryHandler(c, "C04.8") })
+	c.rule("C04.9", func() { configValidatedBeforeUse(c, "C04.9") })
 }
 
 func c04UpperBound(c *Ctx) {
